@@ -21,9 +21,9 @@ type witnessFile struct {
 	Vars    map[string]uint64 `json:"vars"`
 	Sched   []string          `json:"sched,omitempty"`
 	// informational
-	Property  string   `json:"property,omitempty"`
-	Violated  string   `json:"violated,omitempty"`
-	Decisions []string `json:"decisions,omitempty"`
+	Property  string     `json:"property,omitempty"`
+	Violated  string     `json:"violated,omitempty"`
+	Decisions []string   `json:"decisions,omitempty"`
 	Expect    *nativeOut `json:"engine_expectation,omitempty"`
 }
 
@@ -252,4 +252,56 @@ func violationReproduced(p *PathResult, no *nativeOut) (bool, string) {
 		return false, "native run rejected an assumption"
 	}
 	return false, "native run passed every assertion"
+}
+
+// ReplayFile runs one stored witness natively; exit 1 if the violation reproduces.
+func (r *CheckRun) ReplayFile(path string) int {
+	b, err := os.ReadFile(path)
+	if err != nil {
+		fmt.Fprintln(os.Stderr, err)
+		return 2
+	}
+	var w witnessFile
+	if err := json.Unmarshal(b, &w); err != nil {
+		fmt.Fprintln(os.Stderr, "bad witness:", err)
+		return 2
+	}
+	if err := r.buildOverlay(); err != nil {
+		fmt.Fprintln(os.Stderr, err)
+		return 2
+	}
+	// find the package directory that defines the harness
+	dir := ""
+	for p, src := range r.overlay {
+		if strings.Contains(string(src), "func "+w.Harness+"()") {
+			dir, _ = filepath.Rel(r.Repo, filepath.Dir(p))
+		}
+	}
+	if dir == "" {
+		fmt.Fprintln(os.Stderr, "harness not found:", w.Harness)
+		return 2
+	}
+	job := &replayJob{hr: &HarnessResult{Name: w.Harness}, wf: path}
+	if err := r.runNative(dir, []*replayJob{job}); err != nil {
+		fmt.Fprintln(os.Stderr, err)
+		return 2
+	}
+	if job.out == nil {
+		fmt.Fprintln(os.Stderr, "no native output:", job.err)
+		return 2
+	}
+	ob, _ := json.MarshalIndent(job.out, "", " ")
+	fmt.Println(string(ob))
+	for _, a := range job.out.Asserts {
+		if !a.OK {
+			fmt.Printf("REPRODUCED: assertion %s fails natively (property %s)\n", a.Name, r.Prop)
+			return 1
+		}
+	}
+	if job.out.Panic != "" {
+		fmt.Printf("REPRODUCED: native panic (property %s)\n", r.Prop)
+		return 1
+	}
+	fmt.Println("not reproduced: every assertion passed natively")
+	return 0
 }
